@@ -425,7 +425,7 @@ func checkWriterGates(p *Program, r *Report) {
 			styp := f.Params[1].Type().(*types.Pointer).Elem().Underlying().(*types.Struct)
 			tname := f.Params[1].Type().(*types.Pointer).Elem().(*types.Named).Obj().Name()
 			for i := 0; i < styp.NumFields(); i++ {
-				fn := styp.Field(i).Name()
+				fn := fname(styp.Field(i))
 				if fn == "RefName" || fn == "UpdateIndex" {
 					continue
 				}
@@ -433,7 +433,7 @@ func checkWriterGates(p *Program, r *Report) {
 			}
 			bad := ""
 			for i := 0; i < styp.NumFields(); i++ {
-				fn := styp.Field(i).Name()
+				fn := fname(styp.Field(i))
 				if fn == "RefName" || fn == "UpdateIndex" {
 					continue
 				}
@@ -473,7 +473,7 @@ func checkWriterGates(p *Program, r *Report) {
 		recv := mk("param", funcKey(f)+"."+f.Params[0].Name(), nil)
 		var atoms []*Formula
 		for i := 0; i < styp.NumFields(); i++ {
-			fn := styp.Field(i).Name()
+			fn := fname(styp.Field(i))
 			if fn == "RefName" || fn == "UpdateIndex" {
 				continue
 			}
@@ -534,7 +534,7 @@ func copyRules(p *Program, r *Report, f func(*Program, *Report), rules ...string
 func payloadNames(st *types.Struct) []string {
 	var ns []string
 	for i := 0; i < st.NumFields(); i++ {
-		if n := st.Field(i).Name(); n != "RefName" && n != "UpdateIndex" {
+		if n := fname(st.Field(i)); n != "RefName" && n != "UpdateIndex" {
 			ns = append(ns, n)
 		}
 	}
@@ -543,7 +543,7 @@ func payloadNames(st *types.Struct) []string {
 
 func fieldType(st *types.Struct, name string) types.Type {
 	for i := 0; i < st.NumFields(); i++ {
-		if st.Field(i).Name() == name {
+		if fname(st.Field(i)) == name {
 			return st.Field(i).Type()
 		}
 	}
